@@ -18,7 +18,7 @@ RULE = ("case = 1-3 Ethereum txs of a fresh signer (fund 4e5..3e15 unibi), each 
         "selfdestruct to B / to self, forward+revert, FunToken precompile bankMsgSend, the same + revert), contract Y "
         "(frame that reverts after a precompile call), driver contract D calling X 2-5 times in one tx (self-destructs to B/R/D/self "
         "interleaved with payments into X and transfers out), contract creation (ok / reverting init). Measured around DeliverTx: "
-        "bank supply(unibi), balances of 12 scenario accounts, GasUsed, VmError. non-trivial = passed the ante handler AND "
+        "bank supply(unibi), balances of 14 scenario accounts, GasUsed, VmError. non-trivial = passed the ante handler AND "
         "(effective price not a multiple of 10^12 or value with sub-unibi remainder or target has code or failed after ante); "
         "distinct = distinct input")
 ASSUMPTIONS = [
@@ -48,6 +48,16 @@ def _script(tx, d, o, xwei_now=None):
     tgt, mode = tx["target"], tx["mode"]
     if tgt in ("eoa", "create"):
         return []
+    if tgt == "f":
+        # factory: pays fv to the address of its next creation, then creates there with endowment fe
+        fwei = (before[12] + vn) * K
+        ops = []
+        fv, fe = int(tx.get("fv") or 0), int(tx.get("fe") or 0)
+        if 0 < fv <= fwei:
+            ops.append("OTransfer 12 13 %s" % _z(fv)); fwei -= fv
+        if tx.get("finit") == "ok" and 0 < fe <= fwei:
+            ops.append("OTransfer 12 13 %s" % _z(fe))
+        return ops
     if tgt == "d":
         # D calls X once per step; simulate wei balances to know which inner calls can pay their value
         ben = {"B": 4, "R": 2, "D": 9, "X": 3}
@@ -200,6 +210,9 @@ def classify(rec):
         ks.append("type=%d" % tx["ty"])
         ks.append("gas=" + tx["gasmode"])
         ks.append("target=" + tx["target"] + ("/mode%d" % tx["mode"] if tx["target"] in ("x", "create") else ""))
+        if tx["target"] == "f":
+            ks.append("f:%s/init=%s/prefund=%s/endow=%s" % ("create2" if tx.get("fc2") else "create", tx.get("finit"),
+                                                             "0" if int(tx.get("fv") or 0) == 0 else "yes", "0" if int(tx.get("fe") or 0) == 0 else "yes"))
         if tx["target"] == "d":
             kills = sum(1 for st in tx.get("steps") or [] if st["mode"] in (4, 5))
             ks.append("d:selfdestructs_in_one_tx=%d" % kills)
